@@ -20,7 +20,7 @@ func vpIntLiteralInRange(lit string) bool {
 func vp_C01_enforced() {
 	ver := RoomVersion(vpConfig("version"))
 	lit := vpChoice("literal", "0", "1", "-1", "9007199254740991", "-9007199254740991", "9007199254740992", "-9007199254740992",
-		"1.5", "1.0", "0.0", "-0", "-0.0", "1e2", "1E2", "0e5", "1e-2", "123456789012345678901234567890")
+		"1.5", "1.0", "0.0", "-0", "-0.0", "1e2", "1E2", "0e5", "0E0", "-0e0", "1e-2", "1E+2", "123456789012345678901234567890")
 	var doc string
 	switch vpChoice("shape", "top-member", "nested-first", "nested-last", "array-nested-first", "array", "deep") {
 	case "top-member":
@@ -40,10 +40,8 @@ func vp_C01_enforced() {
 	n, _ := vpVerNum(ver)
 	enforce := n >= 6
 	want := !enforce || vpIntLiteralInRange(lit)
-	// KF-C01-2: the float tests are skipped when the value is zero ("0.0", "0e5", "-0.0") and the exponent test only
-	// looks for a lower-case 'e' ("1E2")
-	kf2 := enforce && (lit == "0.0" || lit == "0e5" || lit == "-0.0" || lit == "1E2")
-	vpAssertKF("enforced-verdict", (err == nil) == want, "KF-C01-2", kf2)
+	// (fixed: KF-C01-2 - "0.0", "0e5", "-0.0" and "1E2" used to be accepted)
+	vpAssert("enforced-verdict", (err == nil) == want)
 	vpReach("accepted", err == nil)
 	vpReach("rejected", err != nil)
 }
